@@ -721,7 +721,7 @@ func (w *world) ensureReader() bool {
 		}
 		w.wantGen = nil
 		w.rdGen = nil
-		if IsUnknown("blockdb/" + styleName(sty) + "/open/" + o + w.klTag()) {
+		if isUnknown("blockdb/" + styleName(sty) + "/open/" + o + w.klTag()) {
 			w.done = true
 		}
 		return false
@@ -733,8 +733,8 @@ func (w *world) ensureReader() bool {
 	return true
 }
 
-// IsUnknown reports whether a signature (without the property prefix) is not a listed known finding.
-func IsUnknown(sig string) bool { return sim.IsKnown("C26", "C26/"+sig) == nil }
+// isUnknown reports whether a signature (without the property prefix) is not a listed known finding.
+func isUnknown(sig string) bool { return sim.IsKnown("C26", "C26/"+sig) == nil }
 
 var getKinds = []string{"present", "absent-before", "absent-between", "absent-beyond", "absent-random", "absent-shorter", "absent-longer"}
 
@@ -849,7 +849,7 @@ func (w *world) dbGet(st sim.Step) {
 	tr.Event("get db%d %s %s -> %s", g.idx, sty, getKinds[kind], res)
 	tr.Outcome("get/" + getKinds[kind] + "/" + res)
 	if lost(r) {
-		known := !IsUnknown(pre + o + w.klTag())
+		known := !isUnknown(pre + o + w.klTag())
 		w.sutLost()
 		if known {
 			w.knownHng++
@@ -1122,7 +1122,7 @@ func (w *world) judgeBlock(pre, kind string, want *blk, r *response, strict bool
 	o := outcome(r)
 	switch {
 	case lost(r) || o == "panic":
-		w.viol("read-deadline", pre+kind+"/"+o, fmt.Sprintf("block read did not return: %s (cpu %d ms) %s", o, r.CPUms, r.Panic))
+		w.viol("read-deadline", pre+kind+"/"+o, fmt.Sprintf("block read did not return: %s (user cpu %d ms, kernel %d ms) %s", o, r.CPUms, r.SysMs, r.Panic))
 		return o
 	case want == nil:
 		if o == "ok" {
